@@ -27,11 +27,32 @@ class CaseResult(dict):
     error(str|None)"""
 
 
+class CaseTimeout(BaseException):
+    pass
+
+
+CASE_TIMEOUT_S = int(os.environ.get("VERIF_CASE_TIMEOUT", "90"))
+
+
+def _alarm(signum, frame):
+    raise CaseTimeout()
+
+
 def _run_one(args):
+    import signal
+
     fn, case, kw = args
     t0 = time.time()
     try:
-        r = fn(case, **kw)
+        signal.signal(signal.SIGALRM, _alarm)
+        signal.alarm(CASE_TIMEOUT_S)
+        try:
+            r = fn(case, **kw)
+        finally:
+            signal.alarm(0)
+    except CaseTimeout:
+        # e.g. a rewrite pass that does not terminate on this input: tallied, never a verdict
+        r = dict(rejected=f"case timeout after {CASE_TIMEOUT_S}s (pass or exploration did not finish)")
     except BaseException as e:  # harness crash in worker: report, never a verdict
         r = dict(error=f"{type(e).__name__}: {e}\n{traceback.format_exc()[-1500:]}")
     r.setdefault("case", str(case)[:300])
